@@ -59,6 +59,11 @@ struct WkdRun {
         k.cap_alloc = R.info.sanitized ? cap : std::max(cap, (size_t) sys.l) + 2;
         k.sk.alloc(R.sz(JV_SZ_WK_SK));
         if (k.cap_alloc) k.barr.alloc(k.cap_alloc * fs, 0xEE);
+        // heap recycling: a freshly allocated slot array usually holds whatever an earlier key left there (C.malloc does not clear)
+        if (k.cap && !keys.empty() && (keys.size() + (size_t) env.step) % 4 != 0) {
+            const KeyM& old = keys[((size_t) env.step * 7 + keys.size()) % keys.size()];
+            if (old.barr.p) { size_t n = std::min(old.cap * fs, k.cap * fs); memcpy(k.barr.p, old.barr.p, n); env.count("fault:slot_array_allocated_from_recycled_memory"); }
+        }
         R.jv_wk_sk_init(k.sk, k.barr.p);
         return k;
     }
